@@ -308,20 +308,30 @@ def check_embeddings(rng):
                        ("degenerate", np.eye(n)), ("disconnected", np.diag(np.r_[1.0, np.zeros(n - 1)]))):
             if A is None:
                 B = rng.randn(n, n); A = B + B.T
-            for mp in (0.5, 1.3):
+            for mp, traceless in ((0.5, False), (1.3, False), (0.5, True), (1.3, True)):
                 EVAL[0] += 1
+                A_src = A
+                if traceless:
+                    # option make_traceless: the embedded matrix is A - tr(A)/n (graphs with self-loops / weighted diagonals)
+                    A = A_src - np.trace(A_src) * np.eye(n) / n
+                    if abs(A).max() < 1e-9:
+                        A = A_src
+                        continue
                 try:
-                    sq, U = dec.graph_embed(A, mean_photon_per_mode=mp)
+                    sq, U = dec.graph_embed(A_src, mean_photon_per_mode=mp, make_traceless=traceless)
                 except Exception as e:
-                    bad(f"graph_embed on {lab} (n={n}) raised {type(e).__name__}: {e}")
+                    bad(f"graph_embed on {lab} (n={n}, make_traceless={traceless}) raised {type(e).__name__}: {e}")
+                    A = A_src
                     continue
+                lab_ = lab + (" make_traceless" if traceless else "")
                 M = U @ np.diag(np.tanh(sq)) @ U.T
                 nz = abs(A) > 1e-9
                 ratio = (M[nz] / A[nz]) if nz.any() else np.array([1.0])
                 ok_prop = np.allclose(ratio, ratio.flat[0], atol=1e-6) and abs(M[~nz]).max(initial=0) < 1e-6
                 mean = np.sum(np.sinh(sq) ** 2) / n
-                if not ok_prop or abs(mean - mp) > 1e-5 or abs(U @ U.conj().T - np.eye(n)).max() > 1e-7:
-                    bad(f"graph_embed on {lab} (n={n}, mean photon {mp}): U tanh(r) U^T proportional to A: {ok_prop}; mean photon per mode {mean:.5f}")
+                if not ok_prop or not np.isfinite(mean) or abs(mean - mp) > 1e-5 or abs(U @ U.conj().T - np.eye(n)).max() > 1e-7:
+                    bad(f"graph_embed on {lab_} (n={n}, mean photon {mp}): U tanh(r) U^T proportional to the embedded matrix: {ok_prop}; mean photon per mode {mean:.5f}")
+                A = A_src
 
 
 if __name__ == "__main__":
